@@ -39,8 +39,10 @@ import (
 //        per block interval).
 //  (2) notified-within-block-interval (lazy)  "produces a block within one block interval after it is notified" and
 //        "a notification that arrives while a block is being produced is not lost: it leads to a further block"
-//        for every notification at a there is a start S[j] with a < S[j] <= max(a, end of the production in flight
-//        at a) + B. S[j] > a makes it a FURTHER production when one was in flight at a (that one started <= a).
+//        for every notification at a there is a start S[j] AFTER the notification with S[j] <= max(a, end of the
+//        production in flight at a) + B. "After" is decided by the order in which the harness recorded the events (a
+//        production recorded after the notification call, possibly at the same virtual instant), which makes it a
+//        FURTHER production when one was in flight at a (that one was recorded before the notification).
 //        The statement gives no deadline for the in-flight case; "one block interval after the node is free again"
 //        is the weakest reading that still distinguishes the on-demand block from the next idle-interval block.
 //  (3) idle-interval (lazy)  "otherwise one block per idle interval"
@@ -120,7 +122,11 @@ func (p Point) horizon() time.Duration {
 type result struct {
 	starts []time.Duration
 	notifs []time.Duration
-	err    string // machinery problem
+	// position of every start / notification in the one total order of recorded events: a production that starts at
+	// the same virtual instant as a notification is "after" it iff it was recorded later
+	startSeq []int
+	notifSeq []int
+	err      string // machinery problem
 }
 
 func runPoint(t *testing.T, p Point) (res result) {
@@ -140,10 +146,14 @@ func bubble(p Point) (res result) {
 	}
 	var mu sync.Mutex
 	var starts []time.Duration
+	var startSeq []int
+	seqNo := 0
 	d := p.d()
 	n.M.VerifSetPublishBlock(func(ctx context.Context) error {
 		mu.Lock()
 		starts = append(starts, time.Since(t0))
+		seqNo++
+		startSeq = append(startSeq, seqNo)
 		mu.Unlock()
 		if d > 0 {
 			tm := time.NewTimer(d)
@@ -179,7 +189,11 @@ func bubble(p Point) (res result) {
 		at := p.instant(s)
 		time.Sleep(at - time.Since(t0))
 		synctest.Wait()
+		mu.Lock()
 		res.notifs = append(res.notifs, time.Since(t0))
+		seqNo++
+		res.notifSeq = append(res.notifSeq, seqNo)
+		mu.Unlock()
 		notify()
 		synctest.Wait()
 	}
@@ -187,6 +201,7 @@ func bubble(p Point) (res result) {
 	synctest.Wait()
 	mu.Lock()
 	res.starts = append([]time.Duration(nil), starts...)
+	res.startSeq = append([]int(nil), startSeq...)
 	mu.Unlock()
 	cancel()
 	synctest.Wait()
@@ -231,10 +246,12 @@ func (p Point) describe(res result) string {
 		mode, p.block(), p.idle(), p.d(), via, fmtTimes(res.notifs), fmtTimes(res.starts), p.horizon())
 }
 
-// inflightEnd: end of the production that is in flight at instant a (ok=false: none).
-func inflightEnd(starts []time.Duration, d, a time.Duration) (time.Duration, bool) {
-	for _, s := range starts {
-		if s <= a && a < s+d {
+// inflightEnd: end of the production that is in flight when notification k is delivered (ok=false: none). A production
+// that ends at the very instant of the notification has ended: the harness delivers only after synctest.Wait().
+func inflightEnd(res result, d time.Duration, k int) (time.Duration, bool) {
+	a := res.notifs[k]
+	for i, s := range res.starts {
+		if res.startSeq[i] < res.notifSeq[k] && a < s+d {
 			return s + d, true
 		}
 	}
@@ -266,8 +283,8 @@ func oracle(p Point, res result, baseline func() []time.Duration) (fails []fail,
 		tags = append(tags, "with-notifications")
 	}
 	during := false
-	for _, a := range res.notifs {
-		if _, ok := inflightEnd(S, d, a); ok {
+	for k := range res.notifs {
+		if _, ok := inflightEnd(res, d, k); ok {
 			during = true
 		}
 	}
@@ -301,10 +318,10 @@ func oracle(p Point, res result, baseline func() []time.Duration) (fails []fail,
 	}
 	if p.Lazy {
 		// (2)
-		for _, a := range res.notifs {
+		for k, a := range res.notifs {
 			base := a
 			what := "the notification"
-			if e, ok := inflightEnd(S, d, a); ok {
+			if e, ok := inflightEnd(res, d, k); ok {
 				base, what = e, fmt.Sprintf("the end (%v) of the production that was in flight", e)
 			}
 			deadline := base + B
@@ -313,20 +330,15 @@ func oracle(p Point, res result, baseline func() []time.Duration) (fails []fail,
 				continue
 			}
 			ok := false
-			for _, s := range S {
-				if s > a && s <= deadline {
-					ok = true
+			next := "none"
+			for j, s := range S {
+				if res.startSeq[j] > res.notifSeq[k] {
+					ok = s <= deadline
+					next = s.String()
 					break
 				}
 			}
 			if !ok {
-				next := "none"
-				for _, s := range S {
-					if s > a {
-						next = s.String()
-						break
-					}
-				}
 				add("notified-within-block-interval", "notification at %v: no production starts within one block interval (%v) after %s, i.e. by %v; next start after the notification: %s", a, B, what, deadline, next)
 			}
 		}
@@ -498,8 +510,8 @@ func TestCheck(t *testing.T) {
 		fails, un := oracle(p, res, baselineFor(p))
 		unchecked.Add(int64(un))
 		obligations.Add(int64(len(res.notifs)))
-		for _, a := range res.notifs {
-			if _, ok := inflightEnd(res.starts, p.d(), a); ok {
+		for k := range res.notifs {
+			if _, ok := inflightEnd(res, p.d(), k); ok {
 				duringProd.Add(1)
 			}
 		}
